@@ -477,12 +477,27 @@ Definition load_kv (chk : bool) (now : Z) (ds : list db) (i : Z) (vt : Z) (ttl :
       match read_length s1 with
       | (None, s2) => SErr s2 ds
       | (Some n, s2) =>
-        match read_zitems_partial fuel n [] s2 with
-        | (items, ok, s3) =>
-          match api_zadd_all ds i k items with
-          | None => SErr s3 ds       (* the first zadd already fails: nothing inserted *)
-          | Some ds1 =>
-              if ok then lift_api tt s3 ds1 (api_expire_opt now ds1 i k ttl) else SErr s3 ds1
+        (* the first zadd is the only one that can fail (invalid database, wrong type): the
+           loader returns there without reading any further *)
+        if n <=? 0 then lift_api tt s2 ds (api_expire_opt now ds i k ttl) else
+        match read_string s2 with
+        | (None, s3) => SErr s3 ds
+        | (Some m, s3) =>
+          match read_u64_le s3 with
+          | (None, s4) => SErr s4 ds
+          | (Some sc, s4) =>
+            match api_zadd ds i k m sc with
+            | None => SErr s4 ds
+            | Some ds0 =>
+              match read_zitems_partial fuel (n - 1) [] s4 with
+              | (items, ok, s5) =>
+                match api_zadd_all ds0 i k items with
+                | None => SErr s5 ds0
+                | Some ds1 =>
+                    if ok then lift_api tt s5 ds1 (api_expire_opt now ds1 i k ttl) else SErr s5 ds1
+                end
+              end
+            end
           end
         end
       end
